@@ -189,6 +189,18 @@ def doc_level(ctx: Ctx, cs):
                     ctx.violation(key, f'note {kp_!r} under {clef} is {ap!r} in akern, expected {exp!r} (only the pitch letters change)', case)
                 if clef not in ('*clefG2',) and nt.acc:
                     rich = True
+    # the same export requested through the leaf categories only (everything except the inner categories NOTE, NOTE_REST, CORE
+    # selects exactly the same material): the conversion must not depend on how the selection is spelled
+    TC = kp.TokenCategory
+    leafy = {c for c in TC if c.name not in ('NOTE', 'NOTE_REST', 'CORE')}
+    ctx.ev()
+    ctx.mon('leaf_selection_exports')
+    yl, errl = kpx.dumps(d, encoding=kpx.Enc.agnosticKern, include=leafy)
+    if errl is not None or yl != ya:
+        gl = (yl or '').split('\n')
+        j = next((i for i, (a_, b_) in enumerate(zip(gl, ya.split('\n'))) if a_ != b_), 0)
+        ctx.violation('agnostic-selection-spelling', f'akern with include = all categories except NOTE/NOTE_REST/CORE '
+                      f'{"raised " + repr(errl) if errl is not None else "differs from the unfiltered akern export at line " + str(j + 1) + ": " + repr(gl[j] if j < len(gl) else None) + " vs " + repr(ya.split(chr(10))[j])}', case)
     if rich and 'clef_change' in doc.tags:
         ctx.nontriv(x)
     if len(ctx.samples) < 8 and len(x) < 400 and rich:
